@@ -1,28 +1,64 @@
-//! C09 harness: k-means fits on generated data; emits Coq cases for C09/Corr.v.
+//! C09 harness: k-means fits on generated data (f64 and f32); emits Coq cases for C09/Corr.v.
 use linfa::prelude::*;
 use linfa_clustering::{KMeans, KMeansInit};
 use linfa_nn::distance::{Distance, L1Dist, L2Dist, LInfDist};
-use ndarray::{Array2, Axis};
-use rand::SeedableRng;
+use ndarray::{Array2, ArrayView2};
+use rand::{RngCore, SeedableRng};
 use rand_xoshiro::Xoshiro256Plus;
 use vh::*;
 
 #[derive(Clone, Copy, PartialEq, Debug)]
 enum Met { L1, L2, Linf }
 
+/// the two float types of the property; values cross to Coq as exact literals
+trait Fl: linfa::Float + std::fmt::Debug + std::panic::RefUnwindSafe + std::panic::UnwindSafe {
+    const NAME: &'static str;
+    const CTOR: &'static str;
+    fn of64(v: f64) -> Self;
+    fn to64(self) -> f64;
+    fn bits(self) -> u64;
+    fn scalar(self) -> String;
+    fn vec(xs: &[Self]) -> String;
+    fn mat(rows: &[Vec<Self>]) -> String;
+}
+impl Fl for f64 {
+    const NAME: &'static str = "f64";
+    const CTOR: &'static str = "Case64";
+    fn of64(v: f64) -> f64 { v }
+    fn to64(self) -> f64 { self }
+    fn bits(self) -> u64 { self.to_bits() }
+    fn scalar(self) -> String { sf64(self) }
+    fn vec(xs: &[f64]) -> String { cvec64(xs) }
+    fn mat(rows: &[Vec<f64>]) -> String { cmat64(rows) }
+}
+impl Fl for f32 {
+    const NAME: &'static str = "f32";
+    const CTOR: &'static str = "Case32";
+    fn of64(v: f64) -> f32 { v as f32 }
+    fn to64(self) -> f64 { self as f64 }
+    fn bits(self) -> u64 { self.to_bits() as u64 }
+    // IEEE bit pattern, decoded by C09.Corr.b32 = Common.B32.b32_of_bits
+    fn scalar(self) -> String { format!("(b32 {})", cbits32(self)) }
+    fn vec(xs: &[f32]) -> String { clist(xs, |x| format!("b32 {}", cbits32(*x))) }
+    fn mat(rows: &[Vec<f32>]) -> String { clist(rows, |r| Self::vec(r)) }
+}
+
 #[derive(Clone, Debug)]
-enum Init { Pre(Vec<Vec<f64>>), Random, PlusPlus, Para }
+enum Init<F> { Pre(Vec<Vec<F>>), Random, PlusPlus, Para }
 
-struct FitOut { centroids: Vec<Vec<f64>>, counts: Vec<f64>, inertia: f64, predict: Vec<usize>, transform: Vec<f64> }
+struct FitOut<F> { centroids: Vec<Vec<F>>, counts: Vec<F>, inertia: F, predict: Vec<usize>, transform: Vec<F> }
 
-fn arr(rows: &[Vec<f64>]) -> Array2<f64> {
+fn arr<F: Fl>(rows: &[Vec<F>]) -> Array2<F> {
     let d = if rows.is_empty() { 0 } else { rows[0].len() };
     Array2::from_shape_vec((rows.len(), d), rows.iter().flatten().cloned().collect()).unwrap()
 }
+fn rows_gen<F: Fl>(a: &ArrayView2<F>) -> Vec<Vec<F>> {
+    a.rows().into_iter().map(|r| r.to_vec()).collect()
+}
 
-fn fit_with<D: Distance<f64> + std::fmt::Debug + 'static>(
-    dist: D, x: &Array2<f64>, q: &Array2<f64>, k: usize, init: &Init, seed: u64, max_iter: u64, tol: f64, n_runs: usize,
-) -> Result<FitOut, String> {
+fn fit_with<F: Fl, D: Distance<F> + std::fmt::Debug + 'static>(
+    dist: D, x: &Array2<F>, q: &Array2<F>, k: usize, init: &Init<F>, seed: u64, max_iter: u64, tol: F, n_runs: usize,
+) -> Result<FitOut<F>, String> {
     let rng = Xoshiro256Plus::seed_from_u64(seed);
     let im = match init {
         Init::Pre(c) => KMeansInit::Precomputed(arr(c)),
@@ -36,7 +72,7 @@ fn fit_with<D: Distance<f64> + std::fmt::Debug + 'static>(
     let predict = model.predict(q).to_vec();
     let transform = model.transform(q).to_vec();
     Ok(FitOut {
-        centroids: rows_of(&model.centroids().view()),
+        centroids: rows_gen(&model.centroids().view()),
         counts: model.cluster_count().to_vec(),
         inertia: model.inertia(),
         predict,
@@ -44,7 +80,7 @@ fn fit_with<D: Distance<f64> + std::fmt::Debug + 'static>(
     })
 }
 
-fn do_fit(m: Met, x: &Array2<f64>, q: &Array2<f64>, k: usize, init: &Init, seed: u64, max_iter: u64, tol: f64, n_runs: usize) -> Result<FitOut, String> {
+fn do_fit<F: Fl>(m: Met, x: &Array2<F>, q: &Array2<F>, k: usize, init: &Init<F>, seed: u64, max_iter: u64, tol: F, n_runs: usize) -> Result<FitOut<F>, String> {
     let (x2, q2, init2) = (x.clone(), q.clone(), init.clone());
     match guarded(move || match m {
         Met::L1 => fit_with(L1Dist, &x2, &q2, k, &init2, seed, max_iter, tol, n_runs),
@@ -74,7 +110,7 @@ fn gen_data(rng: &mut Sm64, n: usize, d: usize, kind: u64) -> Vec<Vec<f64>> {
     rows
 }
 
-fn replay_random_inits(x: &[Vec<f64>], k: usize, seed: u64, n_runs: usize) -> Vec<Vec<Vec<f64>>> {
+fn replay_random_inits<F: Fl>(x: &[Vec<F>], k: usize, seed: u64, n_runs: usize) -> Vec<Vec<Vec<F>>> {
     // KMeansInit::Random = rand::seq::index::sample(rng, n, k) on the cloned parameter RNG; the Lloyd
     // loop draws nothing, so consecutive runs take consecutive samples from one stream.
     let mut rng = Xoshiro256Plus::seed_from_u64(seed);
@@ -83,132 +119,178 @@ fn replay_random_inits(x: &[Vec<f64>], k: usize, seed: u64, n_runs: usize) -> Ve
         .collect()
 }
 
-fn fit_term(fuel: u64, tol: f64, inits: &[Vec<Vec<f64>>], k: usize, f: &FitOut, q: &[Vec<f64>]) -> String {
+/// the raw output of the parameter generator: all the Coq model of k-means++ needs (it contains rand's
+/// WeightedIndex / UniformFloat arithmetic); at most one word per centroid and run is consumed
+fn rng_words(seed: u64, count: usize) -> Vec<u64> {
+    let mut rng = Xoshiro256Plus::seed_from_u64(seed);
+    (0..count).map(|_| rng.next_u64()).collect()
+}
+
+enum InitTerm<F> { Given(Vec<Vec<Vec<F>>>), Words(usize, Vec<u64>), Hidden }
+
+fn fit_term<F: Fl>(fuel: u64, tol: F, init: &InitTerm<F>, k: usize, f: &FitOut<F>, q: &[Vec<F>]) -> String {
+    let it = match init {
+        InitTerm::Given(l) => format!("InitGiven {}", clist(l, |m| F::mat(m))),
+        InitTerm::Words(runs, w) => format!("InitPlusPlus {} ({})%N", cn(*runs as u64), clist(w, |v| format!("{}", v))),
+        InitTerm::Hidden => "InitHidden".to_string(),
+    };
     format!(
-        "{{| fc_fuel := {}; fc_tol := {}; fc_inits := {}; fc_k := {}; fc_centroids := {}; fc_counts := {}; fc_inertia := {}; fc_query := {}; fc_predict := {}; fc_transform := {} |}}",
-        cn(fuel), sf64(tol), clist(inits, |m| cmat64(m)), cn(k as u64), cmat64(&f.centroids), cvec64(&f.counts), sf64(f.inertia),
-        cmat64(q), cvecn(&f.predict), cvec64(&f.transform)
+        "{{| fc_fuel := {}; fc_tol := {}; fc_init := {}; fc_k := {}; fc_centroids := {}; fc_counts := {}; fc_inertia := {}; fc_query := {}; fc_predict := {}; fc_transform := {} |}}",
+        cn(fuel), tol.scalar(), it, cn(k as u64), F::mat(&f.centroids), F::vec(&f.counts), f.inertia.scalar(),
+        F::mat(q), cvecn(&f.predict), F::vec(&f.transform)
     )
+}
+
+struct Limits { maxn: usize, maxk: usize, maxd: usize, maxbudget: u64, maxruns: usize, nquery: usize, scales: &'static [f64] }
+
+fn one_dataset<F: Fl>(id: u64, r: &mut Sm64, lim: &Limits, out: &mut Out) {
+    let mets = [Met::L2, Met::L2, Met::L1, Met::Linf];
+    let d = 1 + r.below(lim.maxd as u64) as usize;
+    let n = 2 + r.below(lim.maxn as u64 - 1) as usize;
+    let kind = r.below(5);
+    let k = 1 + r.below(std::cmp::min(n, lim.maxk) as u64) as usize;
+    // magnitude family: the arithmetic is modelled bit for bit, so any scale is fair game; tiny scales
+    // expose absolute-epsilon shortcuts, large ones lossy accumulations
+    let scale = *r.pick(lim.scales);
+    let subnormal = scale < 1e-19;
+    let x: Vec<Vec<F>> = gen_data(r, n, d, kind).into_iter().map(|row| row.into_iter().map(|v| F::of64(v * scale)).collect()).collect();
+    let m = *r.pick(&mets);
+    let xa = arr(&x);
+    // queries: fresh points, stored points, midpoints of stored points (ties between centroids are likely on lattices)
+    let mut q: Vec<Vec<F>> = Vec::new();
+    for _ in 0..lim.nquery {
+        match r.below(3) {
+            0 => q.push((0..d).map(|_| F::of64(r.range(-20, 20) as f64 * 0.5 * scale)).collect()),
+            1 => q.push(x[r.below(n as u64) as usize].clone()),
+            _ => {
+                let a = &x[r.below(n as u64) as usize];
+                let b = &x[r.below(n as u64) as usize];
+                q.push(a.iter().zip(b).map(|(u, v)| (*u + *v) / F::of64(2.0)).collect());
+            }
+        }
+    }
+    let qa = arr(&q);
+    let tol = F::of64(*r.pick(&[1e-4, 1e-2, 1e-12, 1.0]) * scale);
+    let stream = r.below(5);
+    let mname = format!("{:?}", m);
+    let seed = r.below(1000);
+    let mut fits: Vec<String> = Vec::new();
+    let mut tags: Vec<String> = vec![format!("metric_{}", mname), format!("kind_{}", kind), format!("scale_{:e}", scale), F::NAME.to_string()];
+    if subnormal { tags.push("subnormal_sq_dists".into()); }
+    out.bump(&format!("{}_scale_{:e}", F::NAME, scale));
+    let mut series = 0;
+    let mut bbox = true;
+    let mut failed: Option<String> = None;
+    match stream {
+        0 | 1 => {
+            // precomputed initial centroids, growing iteration budget
+            let init: Vec<Vec<F>> = if stream == 0 {
+                let mut idx: Vec<usize> = (0..n).collect();
+                r.shuffle(&mut idx);
+                idx[..k].iter().map(|&i| x[i].clone()).collect()
+            } else {
+                bbox = false;
+                (0..k).map(|_| (0..d).map(|_| F::of64(r.range(-30, 30) as f64 * scale)).collect()).collect()
+            };
+            tags.push("init_precomputed".into());
+            // the cost comparison is evaluated in floats with a relative slack: meaningless where the squared
+            // distances are subnormal (those families are for the bit-exact correspondence)
+            if m == Met::L2 && !subnormal { series = 1; }
+            for b in 1..=lim.maxbudget {
+                match do_fit(m, &xa, &qa, k, &Init::Pre(init.clone()), seed, b, tol, 1) {
+                    Ok(f) => fits.push(fit_term(b, tol, &InitTerm::Given(vec![init.clone()]), k, &f, &q)),
+                    Err(e) => { failed = Some(e); break; }
+                }
+            }
+        }
+        2 => {
+            // random initialiser, growing number of restarts from one seed
+            tags.push("init_random".into());
+            series = 2;
+            let b = 1 + r.below(4);
+            for runs in 1..=lim.maxruns {
+                let inits = replay_random_inits(&x, k, seed, runs);
+                match do_fit(m, &xa, &qa, k, &Init::Random, seed, b, tol, runs) {
+                    Ok(f) => fits.push(fit_term(b, tol, &InitTerm::Given(inits), k, &f, &q)),
+                    Err(e) => { failed = Some(e); break; }
+                }
+            }
+        }
+        3 => {
+            // k-means++: the model replays rand's weighted sampling from the generator's raw words;
+            // growing number of restarts from one seed
+            tags.push("init_plusplus".into());
+            series = 2;
+            let b = 1 + r.below(3);
+            for runs in 1..=lim.maxruns {
+                let words = rng_words(seed, k * runs);
+                match do_fit(m, &xa, &qa, k, &Init::PlusPlus, seed, b, tol, runs) {
+                    Ok(f) => fits.push(fit_term(b, tol, &InitTerm::Words(runs, words), k, &f, &q)),
+                    Err(e) => { failed = Some(e); break; }
+                }
+            }
+        }
+        _ => {
+            // k-means||: candidates are sampled by per-rayon-task generators seeded from a shared atomic
+            // counter, so the initial centroids are not a function of observable draws -> property oracle only
+            tags.push("init_para".into());
+            let b = 1 + r.below(6);
+            let runs = 1 + r.below(lim.maxruns as u64) as usize;
+            match do_fit(m, &xa, &qa, k, &Init::Para, seed, b, tol, runs) {
+                Ok(f) => fits.push(fit_term(b, tol, &InitTerm::Hidden, k, &f, &q)),
+                Err(e) => failed = Some(e),
+            }
+        }
+    }
+    let x0: Vec<f64> = x[0].iter().map(|v| v.to64()).collect();
+    let desc = format!(
+        "{{\"float\": {}, \"n\": {}, \"d\": {}, \"k\": {}, \"metric\": {}, \"kind\": {}, \"stream\": {}, \"seed\": {}, \"tol\": {:e}, \"scale\": {:e}, \"fits\": {}, \"X_first_row\": {:?}}}",
+        jstr(F::NAME), n, d, k, jstr(&mname), kind, stream, seed, tol.to64(), scale, fits.len(), x0
+    );
+    out.bump(&format!("float_{}", F::NAME));
+    out.bump(&format!("stream_{}", stream));
+    out.bump(&format!("metric_{}", mname));
+    out.bump(&format!("kind_{}", kind));
+    out.bump(&format!("k_{}", k));
+    out.bump(&format!("n_{}", if n < 10 { "lt10" } else if n < 30 { "10to29" } else { "ge30" }));
+    let tagrefs: Vec<&str> = tags.iter().map(|s| s.as_str()).collect();
+    if let Some(e) = failed {
+        // a finite dataset with k <= n must fit: an error or panic is a violation of "has exactly k finite centroids"
+        out.rust_fail(id, 1024, &tagrefs, &format!("fit failed: {}", e), &desc);
+        out.rust_eval(&desc, None);
+    } else {
+        let coq = format!(
+            "{} {{| c_id := {}%N; c_metric := {}; c_X := {}; c_bbox := {}; c_series := {}%N; c_fits := [{}] |}}",
+            F::CTOR, id, mname, F::mat(&x), cbool(bbox), series, fits.join("; ")
+        );
+        // non-trivial: more than one cluster and more than one distinct point
+        let distinct = { let mut v: Vec<Vec<u64>> = x.iter().map(|r| r.iter().map(|f| f.bits()).collect()).collect(); v.sort(); v.dedup(); v.len() };
+        let flat: Vec<f64> = x.iter().flatten().map(|v| v.to64()).collect();
+        let salt = (k as u64) << 8 | stream | if F::NAME == "f32" { 1 << 40 } else { 0 };
+        let key = if k > 1 && distinct > 1 { Some(fnv_f64s(&flat, salt)) } else { None };
+        out.case(id, &coq, &tagrefs, &desc, key);
+    }
 }
 
 fn main() {
     let args = parse_args();
     let mut rng = Sm64::new(args.seed);
     let thorough = args.tier == "thorough";
-    let ndatasets = if thorough { 4000 } else { 600 };
-    let maxn = if thorough { 60 } else { 28 };
+    let ndatasets = if thorough { 4200 } else { 720 };
     let mut out = Out::new(&args.out, args.shards, "C09.Corr", "case", args.only);
-    let mets = [Met::L2, Met::L2, Met::L1, Met::Linf];
-    let mut id: u64 = 0;
-    for _ in 0..ndatasets {
+    let lim64 = Limits {
+        maxn: if thorough { 60 } else { 28 }, maxk: 5, maxd: 4, maxbudget: if thorough { 8 } else { 5 },
+        maxruns: if thorough { 5 } else { 3 }, nquery: 4, scales: &[1.0, 1.0, 1.0, 1e-9, 3e-8, 1e-4, 1e7, 1e-158],
+    };
+    // the binary32 model runs on SpecFloat (about 60 us per operation under vm_compute): small instances only
+    let lim32 = Limits {
+        maxn: if thorough { 20 } else { 12 }, maxk: 3, maxd: 3, maxbudget: if thorough { 4 } else { 3 },
+        maxruns: if thorough { 3 } else { 2 }, nquery: 3, scales: &[1.0, 1.0, 1e-4, 3e-3, 1e3, 1e-20],
+    };
+    for id in 0..ndatasets as u64 {
         let mut r = rng.fork();
-        let d = 1 + r.below(4) as usize;
-        let n = 2 + r.below(maxn as u64 - 1) as usize;
-        let kind = r.below(5);
-        let k = 1 + r.below(std::cmp::min(n, 5) as u64) as usize;
-        // magnitude family: the arithmetic is modelled bit for bit, so any scale is fair game; tiny scales
-        // expose absolute-epsilon shortcuts, large ones lossy accumulations
-        let scale = *r.pick(&[1.0, 1.0, 1.0, 1e-9, 3e-8, 1e-4, 1e7]);
-        let x: Vec<Vec<f64>> = gen_data(&mut r, n, d, kind).into_iter().map(|row| row.into_iter().map(|v| v * scale).collect()).collect();
-        let m = *r.pick(&mets);
-        let xa = arr(&x);
-        // queries: fresh points, stored points, midpoints of stored points (ties between centroids are likely on lattices)
-        let mut q: Vec<Vec<f64>> = Vec::new();
-        for _ in 0..4 {
-            match r.below(3) {
-                0 => q.push((0..d).map(|_| r.range(-20, 20) as f64 * 0.5 * scale).collect()),
-                1 => q.push(x[r.below(n as u64) as usize].clone()),
-                _ => {
-                    let a = &x[r.below(n as u64) as usize];
-                    let b = &x[r.below(n as u64) as usize];
-                    q.push(a.iter().zip(b).map(|(u, v)| (u + v) / 2.0).collect());
-                }
-            }
-        }
-        let qa = arr(&q);
-        let tol = *r.pick(&[1e-4, 1e-2, 1e-12, 1.0]) * scale;
-        let stream = r.below(4);
-        let mname = format!("{:?}", m);
-        let seed = r.below(1000);
-        let mut fits: Vec<String> = Vec::new();
-        let mut tags: Vec<String> = vec![format!("metric_{}", mname), format!("kind_{}", kind), format!("scale_{:e}", scale)];
-        out.bump(&format!("scale_{:e}", scale));
-        let mut series = 0;
-        let mut bbox = true;
-        let mut failed: Option<String> = None;
-        match stream {
-            0 | 1 => {
-                // precomputed initial centroids, growing iteration budget
-                let init: Vec<Vec<f64>> = if stream == 0 {
-                    let mut idx: Vec<usize> = (0..n).collect();
-                    r.shuffle(&mut idx);
-                    idx[..k].iter().map(|&i| x[i].clone()).collect()
-                } else {
-                    bbox = false;
-                    (0..k).map(|_| (0..d).map(|_| r.range(-30, 30) as f64 * scale).collect()).collect()
-                };
-                tags.push("init_precomputed".into());
-                if m == Met::L2 { series = 1; }
-                let maxb = if thorough { 8 } else { 5 };
-                for b in 1..=maxb {
-                    match do_fit(m, &xa, &qa, k, &Init::Pre(init.clone()), seed, b, tol, 1) {
-                        Ok(f) => fits.push(fit_term(b, tol, &[init.clone()], k, &f, &q)),
-                        Err(e) => { failed = Some(e); break; }
-                    }
-                }
-            }
-            2 => {
-                // random initialiser, growing number of restarts from one seed
-                tags.push("init_random".into());
-                series = 2;
-                let b = 1 + r.below(4);
-                for runs in 1..=(if thorough { 5 } else { 3 }) {
-                    let inits = replay_random_inits(&x, k, seed, runs);
-                    match do_fit(m, &xa, &qa, k, &Init::Random, seed, b, tol, runs) {
-                        Ok(f) => fits.push(fit_term(b, tol, &inits, k, &f, &q)),
-                        Err(e) => { failed = Some(e); break; }
-                    }
-                }
-            }
-            _ => {
-                // k-means++ / k-means||: initial centroids are not observable -> property oracle only
-                let para = r.chance(0.4);
-                tags.push(if para { "init_para".into() } else { "init_plusplus".into() });
-                let b = 1 + r.below(6);
-                let runs = 1 + r.below(3) as usize;
-                let init = if para { Init::Para } else { Init::PlusPlus };
-                match do_fit(m, &xa, &qa, k, &init, seed, b, tol, runs) {
-                    Ok(f) => fits.push(fit_term(b, tol, &[], k, &f, &q)),
-                    Err(e) => failed = Some(e),
-                }
-            }
-        }
-        let desc = format!(
-            "{{\"n\": {}, \"d\": {}, \"k\": {}, \"metric\": {}, \"kind\": {}, \"stream\": {}, \"seed\": {}, \"tol\": {:e}, \"scale\": {:e}, \"fits\": {}, \"X_first_row\": {:?}}}",
-            n, d, k, jstr(&mname), kind, stream, seed, tol, scale, fits.len(), x[0]
-        );
-        out.bump(&format!("stream_{}", stream));
-        out.bump(&format!("metric_{}", mname));
-        out.bump(&format!("kind_{}", kind));
-        out.bump(&format!("k_{}", k));
-        out.bump(&format!("n_{}", if n < 10 { "lt10" } else if n < 30 { "10to29" } else { "ge30" }));
-        let tagrefs: Vec<&str> = tags.iter().map(|s| s.as_str()).collect();
-        if let Some(e) = failed {
-            // a finite dataset with k <= n must fit: an error or panic is a violation of "has exactly k finite centroids"
-            out.rust_fail(id, 1024, &tagrefs, &format!("fit failed: {}", e), &desc);
-            out.rust_eval(&desc, None);
-        } else {
-            let coq = format!(
-                "{{| c_id := {}%N; c_metric := {}; c_X := {}; c_bbox := {}; c_series := {}%N; c_fits := [{}] |}}",
-                id, mname, cmat64(&x), cbool(bbox), series, fits.join("; ")
-            );
-            // non-trivial: more than one cluster and more than one distinct point
-            let distinct = { let mut v: Vec<Vec<u64>> = x.iter().map(|r| r.iter().map(|f| f.to_bits()).collect()).collect(); v.sort(); v.dedup(); v.len() };
-            let key = if k > 1 && distinct > 1 { Some(fnv_f64s(&x.concat(), (k as u64) << 8 | stream)) } else { None };
-            out.case(id, &coq, &tagrefs, &desc, key);
-        }
-        id += 1;
+        // every 3rd dataset is an f32 one (ids are spread over the shards modulo 16, so the slow cases are too)
+        if id % 3 == 2 { one_dataset::<f32>(id, &mut r, &lim32, &mut out) } else { one_dataset::<f64>(id, &mut r, &lim64, &mut out) }
     }
-    let _ = Axis(0);
-    out.finish("datasets drawn from 5 families (separated blobs, overlapping clouds, integer lattice with duplicates, fewer distinct points than clusters, large offset) x metric x initialiser stream; a case is non-trivial when k > 1 and the data has > 1 distinct point; distinct = distinct (data, k, stream) hashes");
+    out.finish("datasets drawn from 5 families (separated blobs, overlapping clouds, integer lattice with duplicates, fewer distinct points than clusters, large offset) x float type (f64, every third f32) x metric x initialiser stream (precomputed from data / arbitrary, random, k-means++, k-means||); a case is non-trivial when k > 1 and the data has > 1 distinct point; distinct = distinct (data, k, stream, float type) hashes");
 }
